@@ -151,12 +151,21 @@ def check_pad(rec, n, per, gb, gf, cb, cf, w, layout, seed, g=None, second=True)
     ry = resolve(per, gb, gf, cb, cf, "Y")
     nz = any(wx) or any(wy)
     outs = []
-    for which in ((0, 1) if second else (0,)):
-        a0 = labels(shape, seed, which)
+    integral = all(r_[0] != "fill" or (r_[1] == r_[1] and float(r_[1]).is_integer()) for r_ in (rx, ry))
+    for which in ((0, 1) + ((2,) if integral and nz else ()) if second else (0,)):
+        if which == 2:
+            # 64-bit integers beyond 2**53: every original value stays in place exactly (not merely to float precision)
+            a0 = (np.arange(int(np.prod(shape)), dtype=np.int64) * 2 + 2 ** 53 + 1).reshape(shape) * (1 if seed % 2 == 0 else -1)
+            rx = (rx[0], int(rx[1])) if rx[0] == "fill" else rx
+            ry = (ry[0], int(ry[1])) if ry[0] == "fill" else ry
+        else:
+            a0 = labels(shape, seed, which)
         da = xr.DataArray(a0.copy(), dims=list(layout))
         try:
-            # widths are given as tuples or as lists, alternately
+            # widths are given as tuples or as lists, alternately; the axes are listed in either order
             bw = {"X": wx, "Y": wy} if (wx[0] + wy[1]) % 2 == 0 else {"X": list(wx), "Y": list(wy)}
+            if (wx[1] + wy[0] + len(layout)) % 2:
+                bw = {"Y": bw["Y"], "X": bw["X"]}
             r = pad(da, g, bw, boundary=_copy(cb), fill_value=_copy(cf))
         except Exception as e:
             rec.case((n, per, gb, gf, cb, cf, w, layout), nz)
@@ -175,6 +184,14 @@ def check_pad(rec, n, per, gb, gf, cb, cf, w, layout, seed, g=None, second=True)
         if v.shape != e1.shape:
             rec.violation("pad", "shape", case, list(e1.shape), list(v.shape))
             return
+        if which == 2:
+            # exact comparison in Python integers (corner cells aside, as below)
+            got = [int(x) for x in v.ravel()]
+            w1, w2 = [int(x) for x in e1.ravel()], [int(x) for x in e2.ravel()]
+            if not all(a == b or a == c for a, b, c in zip(got, w1, w2)):
+                rec.violation("pad", "large-integers-not-kept-exactly", dict(case, dtype="int64"), e1, v)
+                return
+            continue
         corner = np.zeros(e1.shape, bool)
         # cells new along both axes
         mx = np.ones(e1.shape[ix], bool); mx[wx[0]: wx[0] + a0.shape[ix]] = False
